@@ -13,11 +13,11 @@ CLAIMED = {
                      "both queue modes and the synchronous channel; every transition of small state graphs is replayed on the real channel through gates, "
                      "sampled schedules of larger configurations (up to 6 writers, all boundary payload sizes) are recorded and validated against the spec by TLC, "
                      "and a byte-level oracle on the recording transport decides the verdict after every step."),
-    "C02": dict(engine="channel", design="3/C02", technique="TLA+ model checking (TLC) incl. liveness under fairness + Apalache inductive invariant of the unbounded counting abstraction (TLC-checked refinement) + edge-cover replay to quiescence on the real channel",
+    "C02": dict(engine="channel", design="3/C02", technique="TLA+ model checking (TLC) incl. liveness under fairness + Apalache inductive invariant + TLAPS proof of the unbounded counting abstraction (TLC-checked refinement) + edge-cover replay to quiescence on the real channel",
                 text="TLC checks the safety core (somebody is always committed to re-inspect a non-empty queue), the quiescent form and the liveness property "
                      "C02_Live under weak fairness; the lost-wake-up window (release/re-check/re-CAS against enqueue/CAS) is replayed on the real code in every "
                      "position of the bounded graph and every replay is run to quiescence where accepted = transmitted = flushed is checked. For any number of "
-                     "writers and any queue length the safety core is an inductive invariant of Ownership.tla (Apalache); Channel.tla refines it (TLC, ChannelOwn.tla) and the "
+                     "writers and any queue length the safety core is an inductive invariant of Ownership.tla (Apalache, and proved with TLAPS in OwnershipProof.tla); Channel.tla refines it (TLC, ChannelOwn.tla) and the "
                      "invariant is also evaluated on every recorded real execution."),
     "C05": dict(engine="channel", design="3/C05", technique="TLA+ model checking (TLC) of the close/read-loop/serve protocol + replay and trace validation on the real channel",
                 text="TLC checks active-once/before-first-read/before-serve-returns, sequential reads, transport closed once, inactive once with the winning "
